@@ -626,8 +626,9 @@ AFTER_IMPL['ExtensionsPacket'] = extensions_after
 
 
 def extobj_special(v, fn, I, file, ip, path):
+    L = 'self.bytes()[0] as int * 256 + self.bytes()[1] as int'
     fn('payload', 'C04:body C14:post', ['requires self.wf(),',
-       'ensures 4 <= self.bytes()[0] as int * 256 + self.bytes()[1] as int <= self.bytes().len() ==> r@ == self.bytes().subrange(4, self.bytes()[0] as int * 256 + self.bytes()[1] as int),'])
+       'ensures r@ == ({ let l = %s; let e = if l <= self.bytes().len() { l } else { self.bytes().len() as int }; if e <= 4 { Seq::<u8>::empty() } else { self.bytes().subrange(4, e) } }),   // [C14 object-payload-is-declared-length-clamped]' % L])
 
 
 SPECIAL['extobj_special'] = extobj_special
